@@ -10,7 +10,7 @@ RULE = ('PARSE in both modes on the same inputs: every string of <= k atoms over
         'tolerant mode (full tree); oracle on the implementation: tolerant parse returns (watchdog), raises nothing; if strict '
         'succeeds the two dumps are identical; if strict fails, the nodes it had completed (recovery_nodes of the error) are a prefix of '
         'the tolerant result (the last chars node may be extended); sig = strict outcome class x tolerant node kinds')
-TRUSTED = ['expression arguments with allow_pre_space=False are outside the model (context D cases run through the oracle only)', 'tokenizer model (C11)', 'closed world of argument parsers']
+TRUSTED = ['tokenizer model (C11)', 'closed world of argument parsers']
 ASSUMPTIONS = ['construct nesting below the interpreter recursion limit (about 140 levels); wall-clock watchdog of 10 s per case stands for "terminates"']
 TRIVIAL_SIGS = ()
 CASE_TIMEOUT = 10.0
